@@ -17,10 +17,13 @@ import (
 	"github.com/goblimey/go-ntrip/rtcm/handler"
 	"github.com/goblimey/go-ntrip/rtcm/type1005"
 	"github.com/goblimey/go-ntrip/rtcm/type1006"
+	msm4 "github.com/goblimey/go-ntrip/rtcm/type_msm4/message"
+	msm7 "github.com/goblimey/go-ntrip/rtcm/type_msm7/message"
 	"pgregory.net/rapid"
 	"vh/drive"
 	"vh/enc"
 	"vh/gen"
+	"vh/ref"
 	"vh/stats"
 )
 
@@ -306,6 +309,37 @@ func check(c Case, o *stats.Obs) error {
 						case 3:
 							cp := m.Copy()
 							_ = cp.String()
+						case 5: // display, take a Copy(), display and edit the copy: the original must not change
+							if first == "" {
+								first = stripTimes(m.String())
+							}
+							s0, raw0 := m.String(), append([]byte{}, m.RawData...)
+							cp := m.Copy()
+							_ = cp.String()
+							switch r := cp.Readable.(type) {
+							case *type1005.Message:
+								r.StationID = 4095 - r.StationID
+							case *type1006.Message:
+								r.AntennaHeight = 65535 - r.AntennaHeight
+							case *msm4.Message:
+								if r.Header != nil {
+									r.Header.StationID ^= 0x555
+								}
+							case *msm7.Message:
+								if r.Header != nil {
+									r.Header.StationID ^= 0x555
+								}
+							}
+							for i := range cp.RawData {
+								cp.RawData[i] ^= 0xA5
+							}
+							cp.ErrorMessage = "copy edited"
+							if s1 := m.String(); s1 != s0 && errs[ci] == "" {
+								errs[ci] = fmt.Sprintf("consumer %d, message %d (%x): its display changed after a Copy() of it was displayed and edited:\n--- before ---\n%s\n--- after ---\n%s", ci, k, raw0, s0, s1)
+							}
+							if !bytes.Equal(m.RawData, raw0) && errs[ci] == "" {
+								errs[ci] = fmt.Sprintf("consumer %d, message %d: its raw bytes changed after a Copy() of it was edited: %x -> %x", ci, k, raw0, m.RawData)
+							}
 						case 4: // scribble on this consumer's own value (never on the shared raw bytes)
 							if first == "" {
 								first = stripTimes(m.String())
@@ -405,6 +439,44 @@ func gen1(t *rapid.T) Case {
 	for i := 0; i < l; i++ {
 		c.History = append(c.History, rapid.IntRange(0, n-1).Draw(t, "idx"))
 	}
+	// Twins: a frame that differs from an earlier pool entry in a few payload bits only - either chosen so
+	// that the CRC stays the same (the CRC is linear: adding a shifted copy of the generator polynomial
+	// leaves the remainder unchanged), or one bit with the CRC re-computed - decoded right after it.
+	if rapid.Bool().Draw(t, "twins") {
+		var frames []int
+		for i, f := range c.Pool {
+			if ref.ValidFrame(f) && len(f) >= 6+5 {
+				frames = append(frames, i)
+			}
+		}
+		if len(frames) > 0 {
+			oi := rapid.SampledFrom(frames).Draw(t, "twinOf")
+			f := append([]byte{}, c.Pool[oi]...)
+			plBits := (len(f) - 6) * 8
+			if rapid.Bool().Draw(t, "sameCRC") && plBits >= 12+25 {
+				k := rapid.IntRange(0, plBits-12-25).Draw(t, "polyShift")
+				const g = 0x1864CFB
+				for i := 0; i < 25; i++ {
+					if g>>uint(i)&1 == 1 {
+						bit := 24 + plBits - 1 - (k + i)
+						f[bit/8] ^= 0x80 >> uint(bit%8)
+					}
+				}
+			} else {
+				bit := 24 + rapid.IntRange(12, plBits-1).Draw(t, "twinBit")
+				f[bit/8] ^= 0x80 >> uint(bit%8)
+				crc := ref.CRC24Q(f[:len(f)-3])
+				f[len(f)-3], f[len(f)-2], f[len(f)-1] = byte(crc>>16), byte(crc>>8), byte(crc)
+			}
+			if ref.ValidFrame(f) {
+				c.Pool = append(c.Pool, f)
+				at := rapid.IntRange(0, len(c.History)).Draw(t, "twinAt")
+				h := append([]int{}, c.History[:at]...)
+				h = append(h, oi, len(c.Pool)-1, oi)
+				c.History = append(h, c.History[at:]...)
+			}
+		}
+	}
 	c.Handlers = rapid.SampledFrom([]int{1, 2, 4, 8}).Draw(t, "handlers")
 	c.Debug = rapid.Bool().Draw(t, "debug")
 	c.CfgDisplay = rapid.Bool().Draw(t, "cfgDisplay")
@@ -414,7 +486,7 @@ func gen1(t *rapid.T) Case {
 		k := rapid.IntRange(1, 5).Draw(t, "nOps")
 		var ops []int
 		for j := 0; j < k; j++ {
-			ops = append(ops, rapid.IntRange(0, 4).Draw(t, "op"))
+			ops = append(ops, rapid.IntRange(0, 5).Draw(t, "op"))
 		}
 		c.Consumers = append(c.Consumers, ops)
 	}
